@@ -30,19 +30,27 @@ ALL_STYLES = ("std", "braced", "ws", "parens", "bare")
 
 
 def plan(tier, keys):
-    """generation jobs: (name, battery types, Scope, MaxMut, MutDepth, styles, sigmas)"""
+    """generation jobs: battery types, Scope, MaxMut, MutDepth, MaxFrames (documents in a row on one reused decoder), styles, sigmas"""
+    reuse = reuse_keys()
+    base = [k for k in keys if k not in reuse]
     jobs = []
     if tier == "quick":
         for g in range(GROUPS):      # interleaved so that the heavy types are spread over the groups
-            jobs.append(dict(name="gen%d" % g, keys=keys[g::GROUPS], scope=0, max_mut=1, mut_depth=2, styles=ALL_STYLES, sigmas=1))
+            jobs.append(dict(name="gen%d" % g, keys=base[g::GROUPS], scope=0, max_mut=1, mut_depth=2, frames=2, styles=ALL_STYLES, sigmas=1))
+        # collections whose elements are read by reset() recognizers: mutations on the collection and on its elements
+        for g in range(GROUPS):
+            jobs.append(dict(name="reuse%d" % g, keys=reuse[g::GROUPS], scope=0, max_mut=1, mut_depth=1, frames=2,
+                             styles=("std", "braced", "ws"), sigmas=1))
         return jobs
     for g in range(GROUPS):
-        jobs.append(dict(name="gen%d" % g, keys=keys[g::GROUPS], scope=1, max_mut=1, mut_depth=3, styles=ALL_STYLES, sigmas=2))
+        jobs.append(dict(name="gen%d" % g, keys=base[g::GROUPS], scope=1, max_mut=1, mut_depth=3, frames=3, styles=ALL_STYLES, sigmas=2))
+    for g in range(GROUPS):
+        jobs.append(dict(name="reuse%d" % g, keys=reuse[g::GROUPS], scope=0, max_mut=1, mut_depth=3, frames=2, styles=ALL_STYLES, sigmas=2))
     # second-order mutants (two operators in a row), except for the types with model-value fields (too many)
-    two = [k for k in keys if k not in ("WithValue", "BodyValue", "HdrValue", "ModelVal", "VecNest", "Coll")]
+    two = [k for k in base if k not in ("WithValue", "BodyValue", "HdrValue", "ModelVal", "VecNest", "Coll")]
     n2 = 2 * GROUPS
     for g in range(n2):
-        jobs.append(dict(name="gen2_%d" % g, keys=two[g::n2], scope=0, max_mut=2, mut_depth=1, styles=("std", "ws"), sigmas=1))
+        jobs.append(dict(name="gen2_%d" % g, keys=two[g::n2], scope=0, max_mut=2, mut_depth=1, frames=1, styles=("std", "ws"), sigmas=1))
     return jobs
 
 
@@ -270,14 +278,22 @@ def norm_model(j):
 
 # ----------------------------------------------------------------------------- step 1: generation by TLC
 
-def all_keys():
+def _keys(name):
     s = open(os.path.join(core.SPECS, "FormDoc.tla")).read()
-    m = re.search(r"AllKeys == \{(.*?)\}", s, re.S)
+    m = re.search(name + r" == \{(.*?)\}", s, re.S)
     return re.findall(r'"([^"]+)"', m.group(1))
 
 
+def reuse_keys():
+    return _keys("ReuseKeys")
+
+
+def all_keys():
+    return _keys("AllKeys") + reuse_keys()
+
+
 GEN_INVS = ["WellFormed", "ReadInvertsRender", "WrongTagRejected", "Emit"]
-MUT_OPS = ["dropItem", "dupItem", "swapItems", "dropAttr", "dupAttr", "swapAttrs", "wrongTag", "extraAttr", "extraItem", "renameKey",
+MUT_OPS = ["Commit", "dropItem", "dupItem", "swapItems", "dropAttr", "dupAttr", "swapAttrs", "wrongTag", "extraAttr", "extraItem", "renameKey",
            "unslot", "slotify", "wrongKind", "wrap", "unwrap"]
 
 
@@ -294,7 +310,8 @@ def run_gen(wd, job, res, errs, excused=None):
     try:
         c = core.cfg(constants={"Scope": job["scope"], "Defects": tla_set(defects()),
                                 "Excused": tla_set(defects() if excused is None else excused),
-                                "Keys": set(job["keys"]), "MaxMut": job["max_mut"], "MutDepth": job["mut_depth"]},
+                                "Keys": set(job["keys"]), "MaxFrames": job.get("frames", 1), "MaxMut": job["max_mut"],
+                                "MutDepth": job["mut_depth"]},
                      invariants=GEN_INVS, view="View")
         # -coverage makes TLC pathologically slow on the recursive operators of this module: off; the
         # per-operator statistics are computed from the DOC lines instead
@@ -319,7 +336,7 @@ def probe_excuses(wd, out):
     """the excuses of ReadInvertsRender are keyed on open findings: without them the model must still exhibit the finding"""
     probes = {"F1": ["AttrMap"], "F3": ["BodyValue"]}
     pres, perr = {}, []
-    in_threads(run_gen, [(wd, dict(name="probe" + f, keys=probes[f], scope=0, max_mut=0, mut_depth=0), pres, perr, set())
+    in_threads(run_gen, [(wd, dict(name="probe" + f, keys=probes[f], scope=0, max_mut=0, mut_depth=0, frames=1), pres, perr, set())
                          for f in sorted(defects()) if f in probes])
     if perr:
         raise perr[0]
@@ -378,9 +395,20 @@ def strip(c):
     return {k: v for k, v in c.items() if not k.startswith("_")}
 
 
+SEQ_STYLES = ("std", "braced")      # the flattened and the nested layout of attribute bodies
+
+
 def build_cases(docs, schema, job, seed, base):
     cases = []
     for di, d in enumerate(docs):
+        if d.get("sess"):
+            # frames decoded one after the other by one reused decoder (per reading path)
+            sg = Sigma("%d/%s/0" % (seed, d["_h"]))
+            frames = d["sess"] + [d["doc"]]
+            for st in SEQ_STYLES:
+                cases.append({"id": len(cases), "op": "seq", "ty": d["ty"], "texts": [render(f, sg, st) for f in frames],
+                              "_doc": di, "_sg": 0, "_style": st})
+            continue
         for si in range(job["sigmas"]):
             sg = Sigma("%d/%s/%d" % (seed, d["_h"], si))
             if not d["ops"]:
@@ -483,8 +511,11 @@ class Table:
     def add_batch(self, docs, schema, cases, results, seed):
         st = self.stats
         for d in docs:
-            self.last_op[d["ops"][-1] if d["ops"] else "Pick"] += 1
+            self.last_op["Commit" if d.get("sess") else (d["ops"][-1] if d["ops"] else "Pick")] += 1
         for c, r in zip(cases, results):
+            if c["op"] == "seq":
+                self.add_seq(docs[c["_doc"]], schema, c, r, seed)
+                continue
             d = docs[c["_doc"]]
             ty = c["ty"]
             ops = tuple(d["ops"])
@@ -551,6 +582,43 @@ class Table:
             # the third source of events (informative): MessagePack of the parsed value
             if row["p"] and (acc(r.get("mp")) != row["m"] or (row["m"] and canon(r["mp"]["v"]) != canon(r["via"]["v"]))):
                 st["msgpack_reader_differs_from_bridge"] += 1
+
+
+def _add_seq(self, d, schema, c, r, seed):
+    """one row per frame: d = the decoder reused for every frame of the sequence, m = the model decoder reused likewise"""
+    st = self.stats
+    ty = c["ty"]
+    sg = Sigma("%d/%s/0" % (seed, d["_h"]))
+    if r.get("panic"):
+        st["panics"] += 1
+        self.add(dict(PANIC_DOC), ("seq", ty, (c["texts"], len(c["texts"]) - 1), "PANIC " + str(r["panic"]), ()))
+        return
+    st["frame_sequences"] += 1
+    exps = d["exps"] + [d["exp"]]
+    for fi, fr in enumerate(r["frames"]):
+        row = doc_row(fr, False, None)
+        self.add(row, ("seq", ty, (c["texts"], fi), c["_style"], tuple(d["ops"]) if fi == len(d["sess"]) else ()))
+        st["frame_rows"] += 1
+        if fi > 0:
+            st["frames_on_a_reused_decoder"] += 1
+            if row["p"]:
+                self.nontrivial.add(self.digest("seq", ty, "\x01".join(c["texts"][:fi + 1])))
+        agree = row["d"] == row["m"] and (not row["d"] or row["vd"] == row["vm"])
+        # informative: the reused decoder against a fresh recognizer, and M (which has no memory)
+        fresh = fr.get("fresh")
+        if acc(fresh) != row["d"] or (row["d"] and canon(fresh["v"]) != canon(fr["direct"]["v"])):
+            st["reused_decoder_differs_from_fresh_recognizer"] += 1
+        if agree and row["p"] and c["_style"] == "std":
+            exp = exps[fi]
+            if exp["ok"] != row["m"]:
+                # (renderings that are not faithful are already counted on the single documents)
+                st["frame_differs_from_reference_reader"] += 1
+            elif exp["ok"] and canon(schema.key(ty, exp["x"], sg)) != canon(fr["via"]["v"]):
+                self.note_drift("Read expects another value (frame %d of a sequence)" % fi, ty,
+                                {"texts": c["texts"], "expected": schema.key(ty, exp["x"], sg), "obs": fr["via"].get("v")})
+
+
+Table.add_seq = _add_seq
 
 
 def evaluate(wd, chunks):
@@ -650,7 +718,8 @@ def run(tier, out):
                 docs = []
                 for s in raw[lo:lo + 40000]:
                     d = json.loads(s)
-                    h = hashlib.md5((d["ty"] + "\x00" + canon(d["doc"]) + "\x00" + (canon(d["inst"]) if not d["ops"] else "")).encode()).digest()
+                    h = hashlib.md5((d["ty"] + "\x00" + canon(d["doc"]) + "\x00" + (canon(d["inst"]) if not d["ops"] and not d.get("sess") else "")
+                                     + "\x00" + (canon(d["sess"]) if d.get("sess") else "")).encode()).digest()
                     if h in seen:
                         continue
                     seen.add(h)
@@ -678,6 +747,10 @@ def observe(wd, kind, ty, subject, extra):
     if kind == "doc":
         case = {"id": 0, "op": "doc", "ty": ty, "text": subject}
         return case, harness(wd, [case], "obs", parts=1)[0]
+    if kind == "seq":
+        case = {"id": 0, "op": "seq", "ty": ty, "texts": subject[0]}
+        r = harness(wd, [case], "obs", parts=1)[0]
+        return case, (r["frames"][subject[1]] if "frames" in r else r)
     case = {"id": 0, "op": "inst", "ty": ty, "x": subject}
     r = harness(wd, [case], "obs", parts=1)[0]
     if kind == "printed" and "printed" in r:
@@ -707,8 +780,12 @@ def report(out, tier, jobs, table, failed, tot, cov, gst, wd):
         row = rows_by_id[f["id"]]
         laws = f["laws"]
         panic = isinstance(extra, str) and extra.startswith("PANIC")
-        subj = subject if kind == "doc" else canon(subject)
-        covering = [next((kf for kf in findings if kf_match(kf, law, kind, ty, subj, row)), None) for law in laws]
+        if kind == "seq":
+            # a frame of a sequence is a document: the same signatures apply to its text
+            subj, mkind = subject[0][subject[1]], "doc"
+        else:
+            subj, mkind = (subject if kind == "doc" else canon(subject)), kind
+        covering = [next((kf for kf in findings if kf_match(kf, law, mkind, ty, subj, row)), None) for law in laws]
         fail_log.append({"laws": laws, "kind": kind, "ty": ty, "subject": subject, "ops": list(ops), "row": row,
                          "known": [k["id"] if k else None for k in covering]})
         if not panic and all(k is not None for k in covering):
@@ -724,6 +801,7 @@ def report(out, tier, jobs, table, failed, tot, cov, gst, wd):
             break
         case, obs = observe(wd, kind, ty, subject, extra if not panic else 0)
         what = "law %s broken for type %s on %s" % ("+".join(laws), ty, ("text %r" % subject) if kind == "doc" else
+                                                   ("frame %d of the sequence %r decoded by one reused decoder" % (subject[1] + 1, subject[0])) if kind == "seq" else
                                                    ("instance %s%s" % (subj, " printed by print_recon%s" % ("", "_compact", "_pretty")[extra] if kind == "printed" else "")))
         what += (" " + extra) if panic else (" observed " + json.dumps(obs)[:600])
         out.violation(what, {"case": case, "laws": laws, "row": row, "observed": obs, "mutation": list(ops)})
@@ -788,6 +866,8 @@ def replay(path, out):
         rows.append(inst_row(r))
         for pr in r["printed"]:
             rows.append(doc_row(pr, bool(pr.get("val_is_asv")), r["x"]))
+    elif case["op"] == "seq":
+        rows += [doc_row(fr, False, None) for fr in r["frames"]]
     else:
         rows.append(doc_row(r, False, None))
     for i, row in enumerate(rows):
